@@ -64,4 +64,12 @@ theorem findChain_path (w : World) (root : Str → Option Item) (o ty0 : Str) (t
   rw [findChain_cons _ _ _ _ _ (by simp), hr]
   simp [nextCtx, h0, walk_path w t0 t ls c hp]
 
+/-- ... also when the chain starts at a function whose result is an object (the selector of an
+    ASSOCIATE construct, substituted for the associate name) -/
+theorem findChain_path_fn (w : World) (root : Str → Option Item) (f ty0 : Str) (t0 t : TypeDef) (ls : List Str) (c : Str)
+    (hr : root f = some (.proc f (some ty0))) (h0 : findType w ty0 = some t0) (hp : CompPath w t0 ls t) :
+    findChain Generated.C08.labelOrder w root (f :: (ls ++ [c])) = typeItem Generated.C08.labelOrder w t c := by
+  rw [findChain_cons _ _ _ _ _ (by simp), hr]
+  simp [nextCtx, h0, walk_path w t0 t ls c hp]
+
 end Ford.Calls.Chain
